@@ -195,6 +195,67 @@ def run(ctx):
         w.inst('undef-key')
         if len(rm) != 1 or not idl or sq(rm[0]['args'][0]) != '&' + sx.pat_idents(idl[0]['pat'])[0]:
             w.fail('%s:undef-key' % CRATE, pp.where(u_arm[0].line), '`undef must remove exactly the name the directive gives')
+    # the write of each directive happens on every path through its arm: the conditions it is nested under are only the
+    # stated ones (`define: the name is not a predefined macro).  A write skipped on any other condition leaves the table
+    # with the entry of an EARLIER directive (e.g. its body origin), unless the condition is whole-value equality.
+    def guards_of(root, target):
+        """conditions (text, negated?) under which `target` is nested inside `root`; None if under a loop/match"""
+        res = []
+
+        def walk_(node, acc):
+            if node is target:
+                res.append(list(acc))
+                return
+            if isinstance(node, dict):
+                k = node.get('k')
+                if k == 'if':
+                    walk_(node['c'], acc)
+                    walk_(node['t'], acc + [('if', node['c'], True)])
+                    if 'e' in node:
+                        walk_(node['e'], acc + [('if', node['c'], False)])
+                    return
+                if k == 'match':
+                    walk_(node['e'], acc)
+                    for a_ in node['arms']:
+                        walk_(a_['body'], acc + [('match', node['e'], True)])
+                    return
+                if k in ('for', 'while', 'loop'):
+                    for v in node.values():
+                        walk_(v, acc + [('loop', node, True)])
+                    return
+                for v in node.values():
+                    if isinstance(v, (dict, list)):
+                        walk_(v, acc)
+            elif isinstance(node, list):
+                for v in node:
+                    walk_(v, acc)
+        walk_(root, [])
+        return res[0] if res else None
+
+    for kind_, meth, arm_kind, allowed_guard in (('define', 'insert', 'TextMacroDefinition', 'is_predefined_text_macro'),
+                                                  ('undef', 'remove', 'UndefineCompilerDirective', None),
+                                                  ('undefineall', 'clear', 'UndefineallCompilerDirective', None)):
+        arms_ = [a for a in pp.arms if a.event == 'Enter' and a.kind == arm_kind]
+        if not arms_:
+            continue
+        ws_ = [n for n in sx.walk(arms_[0].body) if n.get('k') == 'mcall' and n['m'] == meth and sx.is_path(n['recv'], tab)]
+        if len(ws_) != 1:
+            continue
+        gs = guards_of(arms_[0].body, ws_[0])
+        w.inst('write-unconditional:%s' % kind_, {'directive': kind_, 'nested_under': [sq(c)[:50] for _, c, _ in (gs or [])]})
+        if gs is None:
+            continue
+        for how, c, pol in gs:
+            txt = sq(c)
+            if how == 'if' and allowed_guard and allowed_guard in txt and c.get('k') == 'unary' and c['op'] == '!' and pol:
+                continue
+            if how == 'if' and c.get('k') == 'binary' and c['op'] in ('!=', '==') and 'Some(' in txt and tab in txt and '.get(' in txt \
+                    and '.text' not in txt and '.arguments' not in txt:
+                w.undecided('%s:write-conditional:%s' % (CRATE, kind_), pp.where(ws_[0].get('l')), '`%s: the table write is skipped on a whole-value comparison `%s`' % (kind_, txt[:60]))
+                continue
+            w.fail('%s:write-conditional:%s' % (CRATE, kind_), pp.where(ws_[0].get('l')),
+                   '`%s: the table write `%s` is nested under `%s`: on the other branch the directive leaves the table as an earlier directive '
+                   'made it (for `define: the older Define, with the older body origin, stays in force)' % (kind_, sq(ws_[0])[:40], txt[:60]))
     # the table is what the function returns
     tail = pp.loop_fn['body']['stmts'][-1]
     w.inst('returned')
